@@ -23,7 +23,7 @@ func init() {
 					"every fixed-part/length-octet combination over {0,1,2,255} with 0..3 trailing bytes; plus packets/headers with every lying length field. Every input is given to all nine decoders and to Request.Fields, " +
 					"three times into fresh values (exact-capacity slice, and twice with 64 bytes of spare capacity) and, when accepted, once more into a long-lived destination that earlier inputs were decoded into (same value required) filled with two different patterns (results must not depend on the spare bytes). " +
 					"distinct_nontrivial counts distinct (decoder, input) pairs where the input is not a valid encoding for that decoder",
-				Assumptions: []string{"allocation is measured with runtime.MemStats.TotalAlloc around single decodes in a worker that runs nothing else; bound 16*len(input)+16KiB"}}
+				Assumptions: []string{"allocation is measured with runtime.MemStats.TotalAlloc around single decodes in a worker that runs nothing else; bound 16*len(input)+16KiB for the decoders, 32*len(input)+32KiB for Request.Fields (which renders every field as text)"}}
 		},
 		Workers: constInt(16, 16),
 		Run:     c04Run,
@@ -389,7 +389,14 @@ func c04Fields(c *Ctx, in []byte) {
 		c.R.Eval()
 		c.Cur(c04Case{Decoder: fmt.Sprintf("Fields%d", typ), Input: fmt.Sprintf("%x", in)})
 		req := tq.Request{Header: tq.Header{Type: tq.HeaderType(typ)}, Body: append(make([]byte, 0, len(in)), in...)}
-		if p := safely(func() { req.Fields() }); p != "" {
+		var before, after runtime.MemStats
+		runtime.ReadMemStats(&before)
+		pn := safely(func() { req.Fields() })
+		runtime.ReadMemStats(&after)
+		if d := after.TotalAlloc - before.TotalAlloc; pn == "" && d > uint64(32*len(in)+32*1024) {
+			c.R.Violate("Request.Fields/alloc", fmt.Sprintf("Request.Fields allocated %d bytes for a %d-byte body of type %d (more than 32x the input + 32 KiB)", d, len(in), typ), c04Case{Decoder: fmt.Sprintf("Fields%d", typ), Input: fmt.Sprintf("%x", in)})
+		}
+		if p := pn; p != "" {
 			c.R.Violate("Request.Fields/panic", fmt.Sprintf("Request.Fields panicked on type %d: %s", typ, p), c04Case{Decoder: fmt.Sprintf("Fields%d", typ), Input: fmt.Sprintf("%x", in)})
 		}
 	}
